@@ -41,6 +41,10 @@ def add_invokes(ch, rng, dm):
         trans = {'now': '<transition target="cf"/>', 'event': '<transition event="e1 e2" target="cf"/>', 'never': ''}[kind]
         fin = '<finalize><log label="FIN%d"/></finalize>' % k if rng.random() < 0.5 else ''
         s.extra_xml = [CHILD % {'id': 'inv%d' % k, 'auto': ' autoforward="true"' if rng.random() < 0.5 else '', 'hello': rng.choice(['child.hello', 'e2', 'i1']), 'trans': trans, 'fin': fin}]
+        if rng.random() < 0.3:
+            # an invocation that cannot be started: its notices must be balanced like any other's
+            bad = '<invoke type="http://example.com/no-such-invoker" id="brk%d"/>' % k
+            s.extra_xml = [bad] + s.extra_xml if rng.random() < 0.5 else s.extra_xml + [bad]
 
 
 def render_fail(ch, dm):
